@@ -38,6 +38,7 @@ where
             .context(format!("failed to open index file: {}", name))?;
         let header = Self::read_index_header(&file).await?;
         let metadata = Self::read_tree_meta(&file, &header).await?;
+        Self::check_file_size(&file, &header, &metadata)?;
         let root_node = Self::read_root(&file, metadata.tree_offset).await?;
 
         Ok(Self {
@@ -422,6 +423,27 @@ where
         serialize_into(&mut buf[..], &header)?;
         let new_hash = IndexHashCalculator::get_hash(&buf);
         Ok(*hash == new_hash)
+    }
+
+    /// Index file consists of header, filters, tree metadata, tree and record headers, in that order.
+    /// A file of any other length is truncated (or otherwise damaged) and can't be used
+    fn check_file_size(file: &File, header: &IndexHeader, metadata: &TreeMeta) -> Result<()> {
+        let expected_size = (header.records_count as u64)
+            .checked_mul(header.record_header_size as u64)
+            .and_then(|records_size| records_size.checked_add(metadata.leaves_offset));
+        if metadata.tree_offset > metadata.leaves_offset || expected_size != Some(file.size()) {
+            let param = ValidationErrorKind::IndexNotWritten;
+            return Err(Error::validation(
+                param,
+                format!(
+                    "Index is incomplete (file size is {}, but header describes {:?})",
+                    file.size(),
+                    expected_size
+                ),
+            )
+            .into());
+        }
+        Ok(())
     }
 
     async fn read_index_header(file: &File) -> Result<IndexHeader> {
